@@ -19,6 +19,9 @@ import (
 	"soyverif/cmd/tablegen/gtfix"
 )
 
+// the decoder of Model/Utf8.v for the parameter f_utf8_DecodeRuneInString
+const stDec = "(fun s => let '(r, w) := decode_rune s in (Z.of_N r, Z.of_nat w))"
+
 func cz(n int64) string { return zLitInt(n) }
 func cb(b bool) string  { return coqBool(b) }
 func cs(s string) string {
@@ -62,6 +65,11 @@ func TestGotransFixtures(t *testing.T) {
 			s, n := s, n
 			add("FallJoin", cs(s)+" "+cz(int64(n)), func() string { return cz(int64(gtfix.FallJoin(s, n))) })
 		}
+	}
+	for _, s := range append(strs, "h\xffé!l", "\xe2\x82", "日本語l!x", "\xf0\x9f\x98\x80") {
+		s := s
+		add("RuneSum", stDec+" "+cs(s), func() string { return cz(int64(gtfix.RuneSum(s))) })
+		add("RuneIdx", stDec+" "+cs(s), func() string { return cz(int64(gtfix.RuneIdx(s))) })
 	}
 	for _, x := range ints {
 		x := x
@@ -243,7 +251,7 @@ func TestGotransFixtures(t *testing.T) {
 	if len(g.problem) > 0 {
 		t.Fatalf("problems: %v", g.problem)
 	}
-	src := "From Soy Require Import Model.Bytes.\nOpen Scope N_scope.\n\n" + gtPrelude + gtPrelude2 + defs.String() + "\n" + examples.String()
+	src := "From Soy Require Import Model.Bytes Model.Utf8.\nOpen Scope N_scope.\n\n" + gtPrelude + gtPrelude2 + defs.String() + "\n" + examples.String()
 
 	coqDir := os.Getenv("VERIF_COQ")
 	if coqDir == "" {
